@@ -37,7 +37,7 @@ def reconfigure():
     MODE = os.environ.get("T1_MODE", "c20")
 
 
-VOCAB = [b"TERM", b":ta", b":tb", b":tc", b":TA", b":zz", b'"a"', b'"v1"', b'["a", "b"]', b"1"]
+VOCAB = [b"TERM", b":ta", b":tb", b":tc", b":TA", b":zz", b'"a"', b'"v1"', b'["a", "b"]', b"1", b"text:\nm\n."]
 NA = len(VOCAB)
 
 
